@@ -1,5 +1,5 @@
-(* C16 proofs, part 3: concrete witnesses (closed by vm_compute): satisfiability examples
-   and the refutations of the unguarded statements. *)
+(* C16 proofs, part 3: concrete witnesses (closed by vm_compute): satisfiability examples,
+   why the guards are there, and the front-end disagreements that remain. *)
 From Coq Require Import List String Ascii Bool Arith.
 From RC Require Import lib.PyStr gen.ReqFileConstsC16 model.ReqFileC16.
 Import ListNotations.
@@ -15,14 +15,14 @@ Definition ex_sub2 : list item :=
   [IReq "" "deep" [(GSp " ", ">="); (GBr " " "    ", "2.0")] [] (mkTail (Some ("  ", " why")) "")].
 Definition ex_sub1 : list item :=
   [IComment "  " " nested file";
-   IOpt "" "--extra-index-url=http://y/s" [] no_tail;
-   IInclude "" "--requirement" (GSp " ") "../c.txt" no_tail ex_sub2;
+   IOpt "" "--extra-index-url=http://y/s" [] (mkTail (Some (" ", " mirror")) "");
+   IInclude "" "--requirement" (GSp "=") "../c.txt" no_tail ex_sub2;
    IReq "" "qux[extra1]==3" [] [] no_tail].
 Definition ex_items : list item :=
   [IComment "" " top";
    IBlank "  ";
    IReq "" "foo==1.0" [] [(GBr " " "    ", "--hash=sha256:aa"); (GBr "  " "    ", "--hash=sha256:bb")] no_tail;
-   IOpt "" "--index-url" [(GSp " ", "http://x/simple")] no_tail;
+   IOpt "" "--index-url" [(GSp " ", dq ++ "http://x/simple" ++ dq); (GSp "  ", "--find-links='./wheel_cache'")] no_tail;
    IInclude "  " "-r" (GSp " ") "sub/b.txt" (mkTail (Some (" ", " include")) "") ex_sub1;
    IReq "" "baz" [(GSp " ", ";"); (GSp " ", "python_version"); (GSp " ", ">="); (GSp " ", """3""")] [] (mkTail None " ")].
 Definition ex_fs := fs_of [("reqs.in", render ex_items); ("./sub/b.txt", render ex_sub1); ("./sub/../c.txt", render ex_sub2)].
@@ -31,69 +31,15 @@ Lemma reads_like_pip_example :
   conventional ex_items = true /\ ex_fs "reqs.in" = Some (render ex_items) /\
   holds ex_fs (dirname "reqs.in") ex_items /\ Nat.ltb (depth ex_items) 5 = true /\
   render ex_items = ["# top"; "  "; "foo==1.0 \"; "    --hash=sha256:aa  \"; "    --hash=sha256:bb";
-                     "--index-url http://x/simple"; "  -r sub/b.txt # include";
-                     "baz ; python_version >= ""3"" "] /\
+                     "--index-url ""http://x/simple""  --find-links='./wheel_cache'";
+                     "  -r sub/b.txt # include"; "baz ; python_version >= ""3"" "] /\
+  render ex_sub1 = ["  # nested file"; "--extra-index-url=http://y/s # mirror"; "--requirement=../c.txt"; "qux[extra1]==3"] /\
   reqs_of ex_items = [["foo==1.0"]; ["deep"; ">="; "2.0"]; ["qux[extra1]==3"];
                       ["baz"; ";"; "python_version"; ">="; """3"""]] /\
-  opts_of ex_items = ["--index-url"; "http://x/simple"; "--extra-index-url=http://y/s"] /\
+  opts_of ex_items = ["--index-url"; "http://x/simple"; "--find-links=./wheel_cache"; "--extra-index-url=http://y/s"] /\
   req_iter any_valid ex_fs 5 "reqs.in" =
     Ok (["foo==1.0"; "deep >= 2.0  # why"; "qux[extra1]==3"; "baz ; python_version >= ""3"""],
-        ["--index-url"; "http://x/simple"; "--extra-index-url=http://y/s"]).
-Proof. vm_compute. repeat split; reflexivity. Qed.
-
-(* ---- refutations of the unguarded reading statement *)
-(* the statement's own domain also has quoted option values and comments after options *)
-Definition reads_like_pip_full_statement : Prop :=
-  forall (valid : string -> bool) fs fuel path (its : list item),
-    conventional_wide its = true -> fs path = Some (render its) -> holds fs (dirname path) its ->
-    depth its < fuel -> (forall t, valid t = true) ->
-    exists texts, req_iter valid fs fuel path = Ok (texts, opts_of its) /\
-                  map req_meaning texts = reqs_of its.
-
-Definition w_quoted : list item :=
-  [IOpt "" "--index-url" [(GSp " ", dq ++ "http://x/simple" ++ dq)] no_tail; IReq "" "foo" [] [] no_tail].
-Lemma quoted_option_refuted :
-  conventional_wide w_quoted = true /\
-  opts_of w_quoted = ["--index-url"; "http://x/simple"] /\
-  req_iter any_valid (fs_of [("r", render w_quoted)]) 3 "r" =
-    Ok (["foo"], ["--index-url"; dq ++ "http://x/simple" ++ dq]) /\
-  cli_front (req_iter any_valid (fs_of [("r", render w_quoted)]) 3 "r") =
-    FOk (mkRepos [dq ++ "http://x/simple" ++ dq] [] [] false).
-Proof. vm_compute. repeat split; reflexivity. Qed.
-
-Definition w_optcomment : list item :=
-  [IOpt "" "--index-url" [(GSp " ", "http://x/s")] (mkTail (Some ("  ", " main index")) ""); IReq "" "foo" [] [] no_tail].
-Lemma option_comment_refuted :
-  conventional_wide w_optcomment = true /\
-  render w_optcomment = ["--index-url http://x/s  # main index"; "foo"] /\
-  opts_of w_optcomment = ["--index-url"; "http://x/s"] /\
-  req_iter any_valid (fs_of [("r", render w_optcomment)]) 3 "r" =
-    Ok (["foo"], ["--index-url"; "http://x/s"; "#"; "main"; "index"]) /\
-  cli_front (req_iter any_valid (fs_of [("r", render w_optcomment)]) 3 "r") = FExit 2.
-Proof. vm_compute. repeat split; reflexivity. Qed.
-
-Lemma full_statement_refuted : ~ reads_like_pip_full_statement.
-Proof.
-  intros H.
-  assert (Hx : exists texts, req_iter any_valid (fs_of [("r", render w_quoted)]) 3 "r" = Ok (texts, opts_of w_quoted) /\
-                             map req_meaning texts = reqs_of w_quoted).
-  { apply H.
-    - vm_compute; reflexivity.
-    - vm_compute; reflexivity.
-    - vm_compute; repeat split.
-    - apply Nat.ltb_lt; vm_compute; reflexivity.
-    - reflexivity. }
-  destruct Hx as (texts & E & _). vm_compute in E. discriminate E.
-Qed.
-
-(* --requirement=FILE is an include for pip; here the token lands in the parameters *)
-Definition w_reqeq : list item :=
-  [IInclude "" "--requirement" (GSp "=") "inc.txt" no_tail [IReq "" "foo" [] [] no_tail]].
-Lemma requirement_eq_refuted :
-  render w_reqeq = ["--requirement=inc.txt"] /\ reqs_of w_reqeq = [["foo"]] /\
-  req_iter any_valid (fs_of [("r", render w_reqeq); ("./inc.txt", ["foo"])]) 3 "r" =
-    Ok ([], ["--requirement=inc.txt"]) /\
-  cli_front (req_iter any_valid (fs_of [("r", render w_reqeq); ("./inc.txt", ["foo"])]) 3 "r") = FExit 2.
+        ["--index-url"; "http://x/simple"; "--find-links=./wheel_cache"; "--extra-index-url=http://y/s"]).
 Proof. vm_compute. repeat split; reflexivity. Qed.
 
 (* why the guard "white space before the backslash" is needed *)
@@ -120,31 +66,14 @@ Definition both (l : list (string * list string)) (root : string) : front_res * 
   let r := req_iter any_valid (fs_of l) 4 root in
   (cli_front r, bazel_front r (match assoc root l with Some ls => ls | None => [] end)).
 
-Lemma find_links_refuted :
-  both [("r", render [directive_item DFind false " " "./links" ""; IReq "" "foo" [] [] no_tail])] "r" =
-  (FOk (mkRepos [] [] [] false), FOk (mkRepos [] [] ["./links"] false)).
-Proof. vm_compute. reflexivity. Qed.
 
-Lemma quoted_directive_refuted :
-  both [("r", ["--index-url " ++ dq ++ "http://x/simple" ++ dq])] "r" =
-  (FOk (mkRepos [dq ++ "http://x/simple" ++ dq] [] [] false), FOk (mkRepos ["http://x/simple"] [] [] false)).
-Proof. vm_compute. reflexivity. Qed.
 
-Lemma indented_directive_refuted :
-  both [("r", ["  --index-url http://x/simple"])] "r" =
-  (FOk (mkRepos ["http://x/simple"] [] [] false), FOk (mkRepos [] [] [] false)).
-Proof. vm_compute. reflexivity. Qed.
 
 Lemma nested_directive_refuted :
   both [("r", ["-r inc.txt"]); ("./inc.txt", ["--extra-index-url http://y/s"])] "r" =
   (FOk (mkRepos [] ["http://y/s"] [] false), FOk (mkRepos [] [] [] false)).
 Proof. vm_compute. reflexivity. Qed.
 
-Definition tab : string := String (ascii_of_nat 9) EmptyString.
-Lemma tab_directive_refuted :
-  both [("r", ["--index-url" ++ tab ++ "http://x/simple"])] "r" =
-  (FOk (mkRepos ["http://x/simple"] [] [] false), FOk (mkRepos [tab ++ "http://x/simple"] [] [] false)).
-Proof. vm_compute. reflexivity. Qed.
 
 (* an option line is a small command line; the Bazel scanner takes the rest of the line as the value *)
 Lemma multi_option_line_refuted :
